@@ -230,6 +230,13 @@ func (n *Namespace) add(c *serverConn, auth json.RawMessage) (*serverSocket, err
 func (n *Namespace) doConnect(socket *serverSocket) error {
 	n.sockets.set(socket)
 
+	// The connection must know the socket before the client is told that it is connected
+	// (and before the connection handlers run): the client may send packets for this namespace as soon
+	// as it receives the CONNECT packet, and a packet for a namespace that
+	// the connection doesn't know closes the connection.
+	socket.conn.sockets.set(socket)
+	socket.conn.nsps.set(n)
+
 	// It is paramount that the internal `onconnect` logic
 	// fires before user-set events to prevent state order
 	// violations (such as a disconnection before the connection
